@@ -482,7 +482,9 @@ class Machine(object):
         r = callee.get("resolved")
         for p in (r, d):
             if p and p in self.hooks:
-                return self.hooks[p](self, args, callee)
+                res = self.hooks[p](self, args, callee)
+                if res is not builtins.NOT_HANDLED:     # a hook may decline (e.g. it models one Self type only)
+                    return res
         for p in (r, d):
             if p and self.uninterpreted(p, callee):
                 return Term("call", p, *args)
